@@ -251,7 +251,7 @@ def run(ctx):
     ctx.oblig("harness-build", ok, out[-3000:])
     if not ok:
         return
-    cases = gen_cases(ctx, 120 if quick else 800, 16 if quick else 64)
+    cases = gen_cases(ctx, 90 if quick else 800, 16 if quick else 64)
     outs, errs = run_harness_parallel("orbit", cases)
     ctx.oblig("harness-run", not errs and len(outs) == len(cases), "\n".join(errs)[:2000])
     exprs, meta = [], []
